@@ -179,7 +179,7 @@ def canonicalize_trust(trusts):
                          "constraint tuple {}".format(trust))
       feature_a, feature_b, direction = trust
       if direction in [-1, 1]:
-        canonicalized.append(trust)
+        canonicalized.append(tuple(trust))
       elif (isinstance(direction, six.string_types) and
             direction.lower() == "negative"):
         canonicalized.append((feature_a, feature_b, -1))
